@@ -8,6 +8,7 @@ arithmetic stays symbolic: reading `A[k]` of a named symbolic array yields the t
 calls of unknown functions yield ("call", text).  A construct outside the subset raises AnalysisError (the check then ends as analysis error,
 never as a silent pass)."""
 import ast
+import os
 import itertools
 from .model import AnalysisError, src, dotted, call_name, norm_stmt
 
@@ -1130,17 +1131,20 @@ class IndexInterp:
                 target = r0
         same_module_function = target is not None and recv_self is None and isinstance(f, ast.Name) and getattr(target, "_module", None) is module \
             and getattr(target, "_cls", None) is None
-        if target is None or target.name.startswith("__") or self.depth >= 4 or not (target.name.startswith("_") or same_module_function):
+        private_module = target is not None and recv_self is None and isinstance(f, ast.Name) and getattr(target, "_cls", None) is None and \
+            os.path.basename(getattr(getattr(target, "_module", None), "rel", "") or "").startswith("_") and \
+            not os.path.basename(getattr(getattr(target, "_module", None), "rel", "") or "").startswith("__")
+        if target is None or target.name.startswith("__") or self.depth >= 4 or not (target.name.startswith("_") or same_module_function or private_module):
             return NotImplemented
         a = target.args
-        if a.vararg or a.kwarg or a.kwonlyargs or any(k.arg is None for k in e.keywords):
+        if a.kwarg or a.kwonlyargs or any(k.arg is None for k in e.keywords):
             return NotImplemented
         ps = [x.arg for x in a.posonlyargs + a.args]
         if recv_self is not None:
             ps = ps[1:]
         vals = self.call_args(e)
         kws = {k.arg: self.ev(k.value) for k in e.keywords}
-        if len(vals) > len(ps) or any(k0 not in ps for k0 in kws):
+        if (len(vals) > len(ps) and a.vararg is None) or any(k0 not in ps for k0 in kws):
             return NotImplemented
         tmod = getattr(target, "_module", None) or module
         mod_names = set(getattr(tmod, "imports", {})) | set(getattr(tmod, "globals", {})) if tmod is not None else set()
@@ -1158,6 +1162,8 @@ class IndexInterp:
                 env2[p0] = self.ev(defaults[p0])
             else:
                 return NotImplemented
+        if a.vararg is not None:
+            env2[a.vararg.arg] = tuple(vals[len(ps):])          # `*rest`: what is left of the positional arguments
         sub = type(self).__new__(type(self))
         sub.__dict__.update(self.__dict__)
         sub.__dict__.pop("ev", None)
